@@ -465,10 +465,22 @@ def correspondence(ctx, model_ok=True):
     out["exact_agreements"] = sum(1 for c in codes if c == 0)
     out["tolerance_agreements"] = sum(1 for c in codes if c == 1)
     out["traces_validated_against_impl"] = sum(1 for c in codes if c <= 1)
+    per_class = {}
     for c, g, code in zip(cases, gots, codes):
         if code >= 2:
-            out["failures"].append(Failure(c, f"model and implementation disagree (code {code}): impl={g}"))
-    out["failures"] = out["failures"][:40]
+            try:
+                msg = oracle(c)
+            except Exception as e:  # noqa
+                msg = None
+            cl = failure_class(c, msg) if msg else "model/implementation"
+            if per_class.get(cl, 0) >= (1 if msg else 5):
+                continue
+            per_class[cl] = per_class.get(cl, 0) + 1
+            if msg:
+                c = shrink(c, cl)
+                msg = oracle(c)
+            out["failures"].append(Failure(c, f"{cl}: model and implementation disagree (code {code}): impl={g}",
+                                           on_impl=msg or None))
     return out
 
 
